@@ -5,7 +5,7 @@
      ring <bytes> | filtring <bytes>       capacity substituted for the 1 GiB rings (before init)
      seed <n> | sched t0 t1 ..             schedule (random from seed / explicit thread ids)
      cam <idx> w=<w> h=<h> type=<t> trig=<0|1> pace=<n>     mock camera behaviour
-     camfail <idx> <hardware id> | camstartfail <idx> | stofail <idx> <append index> | stostartfail <idx> | stopace <idx> <n>
+     camfail <idx> <hardware id> | camempty <idx> <k> (every k-th frame call returns no frame) | camstartfail <idx> | stofail <idx> <append index> | stostartfail <idx> | stopace <idx> <n>
      cfg <stream> cam=<A|B|Bad|none> sto=<A|B|Bad|none> n=<max frames> avg=<k> delay=<ms>
      init | configure | start | stop | abort | trigger <stream> | map <stream> | unmap <stream> all|none|half|frames <k>|bytes <n>
      state | yield <n> | shutdown
@@ -409,6 +409,7 @@ int main(void)
         if (sscanf(l, "camfail %ld %ld", &x, &y) == 2) { mock_cam[x].fail_at = y; continue; }
         if (sscanf(l, "camreject %ld", &x) == 1 && x >= 0 && x < MOCK_NCAM) { mock_cam[x].reject_sets = 1; continue; }
         if (sscanf(l, "camstartfail %ld", &x) == 1) { mock_cam[x].start_fails = 1; continue; }
+        if (sscanf(l, "camempty %ld %ld", &x, &y) == 2 && x >= 0 && x < MOCK_NCAM) { mock_cam[x].empty_every = (int)y; continue; }
         if (sscanf(l, "stofail %ld %ld", &x, &y) == 2) { mock_sto[x].fail_at = y; continue; }
         if (sscanf(l, "stostartfail %ld", &x) == 1) { mock_sto[x].start_fails = 1; continue; }
         if (sscanf(l, "stopace %ld %ld", &x, &y) == 2) { mock_sto[x].pace = (int)y; continue; }
